@@ -234,7 +234,7 @@ def check_crop(prog: Program, res: Result, rule: str = "C12-crop", floor: int = 
     lp = loops[0]
     tg = [norm(e) for e in lp.target.elts] if isinstance(lp.target, ast.Tuple) else []
     srcs = [norm(a) for a in lp.iter.args]
-    res.ob(R, len(tg) == len(srcs) == 7, fi.qualname, "seven aligned per-sample sequences", f"zip of {len(srcs)} sequences into {len(tg)} names", fi.where)
+    res.ob(R, len(tg) == len(srcs) and len(srcs) >= 7, fi.qualname, "aligned per-sample sequences", f"zip of {len(srcs)} sequences into {len(tg)} names", fi.where)
     # every zipped sequence has one entry PER FRAME of the batch, in batch order: the batch dict's own lists, the per-sample
     # lists filled once per sample (C12-split/C12-topk), or an unfiltered element-wise map of those.  A filtered sequence
     # (comprehension with `if`, filter(), boolean/slice indexing) is shorter after an empty frame and shifts every later
@@ -281,24 +281,21 @@ def check_crop(prog: Program, res: Result, rule: str = "C12-crop", floor: int = 
     res.ob(R, set(var_of) >= {"image", "frame_idx", "video_idx", "orig_size", "eff_scale"}, fi.qualname, "zip covers image and its indices",
            f"zip covers only {sorted(var_of)}", fi.where)
     others = set(var_of.values())
-    recs = [s for s in ast.walk(lp) if isinstance(s, ast.Assign) and isinstance(s.targets[0], ast.Subscript) and isinstance(s.targets[0].slice, ast.Constant)]
-    dname = None
-    for s in recs:
-        key = s.targets[0].slice.value
-        dname = norm(s.targets[0].value)
-        if key in var_of:
-            used = astq.names_in(s.value) & others
-            res.ob(R, used == {var_of[key]}, fi.qualname, f"record['{key}'] from this sample's {var_of[key]}",
-                   f"record['{key}'] is computed from {sorted(used)} instead of `{var_of[key]}` (the zip element of inputs['{key}']): the crop carries another frame's {key}",
-                   f"{fi.module.relpath}:{s.lineno}", sample={"key": key, "value": short(s.value, 40)})
-    if dname:
-        inits = [s for s in lp.body if isinstance(s, ast.Assign) and norm(s.targets[0]) == dname and norm(s.value) in ("{}", "dict()")]
-        res.ob(R, len(inits) == 1, fi.qualname, "fresh record per sample", "the crop record is not a fresh dict per sample (records alias each other)", fi.where)
-        apps = [c for c in astq.method_calls(lp, "append") if c.args and norm(c.args[0]) == dname]
+    recs = astq.dict_records(lp)
+    res.ob(R, len(recs) == 1, fi.qualname, "one crop record per sample", f"{len(recs)} crop records are built per sample", fi.where)
+    for rec in recs:
+        for key, val in rec.fields.items():
+            if key in var_of:
+                used = astq.names_in(astq.expand(fi.node, val, keep=others)) & others
+                res.ob(R, used == {var_of[key]}, fi.qualname, f"record['{key}'] from this sample's {var_of[key]}",
+                       f"record['{key}'] is computed from {sorted(used)} instead of `{var_of[key]}` (the zip element of inputs['{key}']): the crop carries another frame's {key}",
+                       f"{fi.module.relpath}:{val.lineno}", sample={"key": key, "value": short(val, 40)})
+        res.ob(R, rec.fresh, fi.qualname, "fresh record per sample", "the crop record is not a fresh dict per sample (records alias each other)", fi.where)
+        apps = [rec.sink] if rec.sink is not None else []
         heads = cfg.nodes_of(lp)
         an = {n for c in apps for n in cfg.stmt_nodes_containing(c)}
         conts = [n for n in ast.walk(lp) if isinstance(n, ast.Continue)]
-        ok_skip = all(any(isinstance(g, ast.If) and "isnan" in norm(g.test) and "all" in norm(g.test) for g in ancestors(c)) for c in conts)
+        ok_skip = all(any(isinstance(g, ast.If) and "isnan" in astq.xnorm(fi.node, g.test) and "all" in astq.xnorm(fi.node, g.test) for g in ancestors(c)) for c in conts)
         body_first = [m for h in heads for m in cfg.g.successors(h) if "true" in cfg.g[h][m]["labels"]]
         cn = {n for c in conts for n in cfg.stmt_nodes_containing(c)}
         w = cfg.must_pass(body_first, heads, an | cn, drop_edge=lambda x, y, labels: "exc" in labels)
